@@ -43,6 +43,8 @@ type StormCase struct {
 	// Probe: after everything was released, one more request for each of these
 	// addresses (mod Addrs) must dial afresh.
 	Probe []int `json:"probe,omitempty"`
+	// Names: templates of the address spellings (names.go); empty: a0, a1, ...
+	Names []string `json:"names,omitempty"`
 }
 
 // StormDial is the scripted behaviour of one invocation of the dial function.
@@ -115,6 +117,7 @@ type storm struct {
 	m   *connection.Manager
 	t0  time.Time
 	idx map[string]int
+	tab []string // spelling of address i
 
 	mu        sync.Mutex
 	invs      []*stormInv
@@ -130,6 +133,18 @@ type storm struct {
 }
 
 func (s *storm) now() time.Duration { return time.Since(s.t0) }
+
+// an names address ai in messages: its index name and, if generated, its spelling.
+func (s *storm) an(ai int) string {
+	if len(s.sc.Names) == 0 {
+		return addrName(ai)
+	}
+	a := s.tab[ai]
+	if len(a) > 48 {
+		a = a[:45] + "..."
+	}
+	return fmt.Sprintf("%s=%q", addrName(ai), a)
+}
 
 func tickOf(d time.Duration) int { return int(d / stormTick) }
 
@@ -203,7 +218,7 @@ func (s *storm) dial(ctx context.Context, target string, opts ...grpc.DialOption
 	case cancelled:
 		err = &stormErr{inv: inv, cause: ctx.Err()}
 	case d.OK:
-		cc, err = grpc.NewClient("passthrough:///"+target, opts...)
+		cc, err = grpc.NewClient("passthrough:///c16", opts...) // the spelling of the address is never parsed by gRPC
 	default:
 		err = &stormErr{inv: inv}
 	}
@@ -271,7 +286,7 @@ func (s *storm) release(what string, done func(), n, again int) {
 func (s *storm) caller(i int) {
 	c := s.sc.Callers[i]
 	ai := mod(c.A, s.sc.Addrs)
-	addr := addrName(ai)
+	addr := s.an(ai) // for messages; the calls use the spelling s.tab[ai]
 	who := fmt.Sprintf("requester %d (%s, start tick %d)", i, addr, c.Start)
 	ctx := context.Background()
 	var cancel context.CancelFunc
@@ -299,7 +314,7 @@ func (s *storm) caller(i int) {
 	var done func()
 	var err error
 	s.guarded("Connection of "+who, func() {
-		conn, done, err = s.m.Connection(ctx, addr, connection.DEFAULT)
+		conn, done, err = s.m.Connection(ctx, s.tab[ai], connection.DEFAULT)
 	})
 	s1 := s.now()
 	s.mu.Lock()
@@ -385,7 +400,7 @@ func (s *storm) caller(i int) {
 		var d2 func()
 		var e2 error
 		s.guarded("nested Connection of "+who, func() {
-			c2, d2, e2 = s.m.Connection(context.Background(), addr, connection.DEFAULT)
+			c2, d2, e2 = s.m.Connection(context.Background(), s.tab[ai], connection.DEFAULT)
 		})
 		if e2 != nil || c2 != conn {
 			s.violate("redial-while-live", "%s holds the connection of dial #%d unreleased and asked for %s again at tick %d: got (same connection: %v, error: %v) instead of the connection it holds", who, inv.id, addr, tickOf(s.now()), c2 == conn, e2)
@@ -501,8 +516,15 @@ func runStormBubble(sc *StormCase) (stormStats, *verr) {
 	}
 	s := &storm{sc: sc, t0: time.Now(), idx: map[string]int{}, labels: map[string]bool{},
 		perAddr: make([]int, sc.Addrs), inflight: make([]int, sc.Addrs), holders: make([]int, sc.Addrs), cs: make([]stormCallerState, len(sc.Callers))}
+	var distinct bool
+	if s.tab, distinct = addrTable(sc.Names, sc.Addrs); !distinct {
+		return stormStats{}, newVerr("harness-error", "the address spellings of the case are not pairwise different after case folding: this part decides nothing about such spellings")
+	}
 	for i := 0; i < sc.Addrs; i++ {
-		s.idx[addrName(i)] = i
+		s.idx[s.tab[i]] = i
+	}
+	for _, l := range nameLabels(s.tab, len(sc.Names) > 0) {
+		s.labels[l] = true
 	}
 	m, err := connection.NewManagerCustom(map[string]connection.Dial{connection.DEFAULT: s.dial}, grpc.WithTransportCredentials(insecure.NewCredentials()))
 	if err != nil {
@@ -628,7 +650,7 @@ func runStormBubble(sc *StormCase) (stormStats, *verr) {
 // probe: with nothing registered for the address any more, one more request
 // must invoke the dial function once and get exactly its outcome.
 func (s *storm) probe(ai int) *verr {
-	addr := addrName(ai)
+	addr := s.an(ai)
 	s.mu.Lock()
 	n0 := s.perAddr[ai]
 	s.mu.Unlock()
@@ -639,7 +661,7 @@ func (s *storm) probe(ai int) *verr {
 	go func() {
 		defer close(ret)
 		s.guarded("final Connection("+addr+")", func() {
-			conn, done, err = s.m.Connection(context.Background(), addr, connection.DEFAULT)
+			conn, done, err = s.m.Connection(context.Background(), s.tab[ai], connection.DEFAULT)
 		})
 	}()
 	if !waitOrStuck(ret) {
